@@ -40,6 +40,9 @@ def SVD(mat):
     if mat.shape[0] < 10*mat.shape[1]:
         try:
             u, s, v = tn.linalg.svd(mat,full_matrices=False)
+            if not tn.isfinite(s).all():
+                # the divide and conquer driver can return NaN without raising (e.g. denormal entries in single precision)
+                raise RuntimeError('SVD returned non finite singular values.')
             s = s.to(v.dtype)
             return u, s, v
         except:
@@ -48,11 +51,13 @@ def SVD(mat):
     else:
         try:    
             u, s, v = tn.linalg.svd(mat.t(),full_matrices=False)
+            if not tn.isfinite(s).all():
+                raise RuntimeError('SVD returned non finite singular values.')
             s = s.to(v.dtype)
             return  v.t(), s, u.t()
         except:
             u, s, v = np.linalg.svd((mat.t()).numpy(),full_matrices=False)
-            return  tn.tensor(v.t(), dtype = mat.dtype, device = mat.device), tn.tensor(s, dtype = mat.dtype, device = mat.device), tn.tensor(u.t(), dtype = mat.dtype, device = mat.device)
+            return  tn.tensor(v.T, dtype = mat.dtype, device = mat.device), tn.tensor(s, dtype = mat.dtype, device = mat.device), tn.tensor(u.T, dtype = mat.dtype, device = mat.device)
     # u, s, v = tn.linalg.svd(mat,full_matrices=False)
     # return u, s, v
 
